@@ -43,19 +43,22 @@ fn state_var_names(p: &pt::SourceUnitPart) -> Vec<String> {
 }
 
 fn identifiers(text: &str) -> HashSet<&str> {
+    // identifiers may contain non-ASCII letters (solang accepts Unicode XID characters)
     let mut out = HashSet::new();
-    let b = text.as_bytes();
-    let mut i = 0;
-    while i < b.len() {
-        if b[i].is_ascii_alphabetic() || b[i] == b'_' || b[i] == b'$' {
-            let s = i;
-            while i < b.len() && (b[i].is_ascii_alphanumeric() || b[i] == b'_' || b[i] == b'$') {
-                i += 1;
+    let mut start: Option<usize> = None;
+    for (i, c) in text.char_indices() {
+        let idc = c.is_alphanumeric() || c == '_' || c == '$';
+        match (start, idc) {
+            (None, true) => start = Some(i),
+            (Some(s), false) => {
+                out.insert(&text[s..i]);
+                start = None;
             }
-            out.insert(&text[s..i]);
-        } else {
-            i += 1;
+            _ => {}
         }
+    }
+    if let Some(s) = start {
+        out.insert(&text[s..]);
     }
     out
 }
@@ -220,8 +223,10 @@ fn shaped(k: u64, rng: &Rng) -> String {
     let noctor = "contract Plain%N% {\n    uint256 internal value%N%;\n    address owner%N%;\n    function set%N%(uint256 v) external {\n        value%N% = v;\n        owner%N% = msg.sender;\n    }\n    function kill%N%() external {\n        selfdestruct(payable(msg.sender));\n    }\n}\n";
     let guarded = "contract Guarded%N% {\n    address private _owner%N%;\n    function destroy() external {\n        require(msg.sender == _owner%N%, \"no\");\n        selfdestruct(payable(_owner%N%));\n    }\n    function update(uint256 v) public returns (uint256) {\n        return v * 4;\n    }\n}\n";
     let open_ = "contract Open%N% {\n    function destroy() external {\n        selfdestruct(payable(msg.sender));\n    }\n    function update(uint256 v) public returns (uint256) {\n        return v / 3;\n    }\n    function _helper() private {}\n}\n";
+    let spaced = "contract Spaced%N% {\n    uint256 public n%N%;\n    function first%N%() public {\n        n%N% = 1;\n    }\n    constructor () {\n        n%N% = 2;\n    }\n}\n";
+    let loose = "contract Loose%N% {\n    uint8 small%N%;\n    uint256 big%N%;\n    uint8 tiny%N%;\n}\n";
     let st = "struct S%N% {\n    uint8 a;\n    uint256 b;\n    uint8 c;\n}\n";
-    let pool = [lib, iface, free, good, bad, noctor, st, guarded, open_];
+    let pool = [lib, iface, free, good, bad, noctor, st, guarded, open_, spaced, loose, loose];
     let mut out = String::from("pragma solidity 0.8.17;\n");
     let n = rng.range(2, 6);
     let mut idx = k as usize;
